@@ -222,9 +222,9 @@ theorem nil_roundtrip (env : Env) (f g : Nat) (name : String) (ns : Option Strin
 /-! Non-vacuity / worked example on the environment of a derived type. -/
 def exEnv2 : Env :=
   { uris := ["urn:a"],
-    types := [⟨(0, "P"), none, [⟨"name", .builtin "string", 1, false, false, true, false⟩,
-                               ⟨"tag", .builtin "int", 0, true, true, true, false⟩], []⟩,
-              ⟨(0, "Q"), some (0, "P"), [⟨"extra", .builtin "boolean", 1, false, false, true, false⟩], []⟩] }
+    types := [⟨(0, "P"), none, [⟨"name", .builtin "string", 1, false, false, true, false, none⟩,
+                               ⟨"tag", .builtin "int", 0, true, true, true, false, none⟩], []⟩,
+              ⟨(0, "Q"), some (0, "P"), [⟨"extra", .builtin "boolean", 1, false, false, true, false, none⟩], []⟩] }
 
 /-- a struct round trip through marshal and decode, derived type and repeated member included -/
 example :
